@@ -82,6 +82,7 @@ type uEvent struct {
 	Out      uOut   `json:"out"`
 	R        uChain `json:"r"`
 	Special  bool   `json:"special"`  // the request carries a value with URL-reserved characters
+	JSONLbl  bool   `json:"jsonlbl"`  // the filter label needs a JSON escape once parsed (backslash, quote, control character, leading brace)
 	HasEmpty bool   `json:"hasempty"` // the parsed URL has a field-selection entry without any field
 	Ret      string `json:"ret"`
 }
@@ -493,7 +494,8 @@ func sameFieldSets(a, b map[string][]string) bool {
 
 func runChain(c uCase, raw string, schema *jsonapi.Schema, req uReq) uEvent {
 	ev := uEvent{Ev: "chain", Req: req, Out: emptyOut("ok"), Ret: "ok"}
-	special := func(s string) bool { return strings.ContainsAny(s, " &?#%+=\"") || !isASCIIToken(s) }
+	special := func(s string) bool { return strings.ContainsAny(s, " &?#%+=\"\\") || !isASCIIToken(s) }
+	ev.JSONLbl = req.Filter == "label" && strings.Contains(c.Style.Label, "\\")
 	ev.Special = special(c.Style.ID) || (req.Filter == "label" && special(c.Style.Label)) ||
 		(req.Filter == "json") || (req.Page != "none" && special(c.Style.PageVal))
 	p, _ := catch(func() {
@@ -545,8 +547,12 @@ func runChain(c uCase, raw string, schema *jsonapi.Schema, req uReq) uEvent {
 }
 
 var (
-	idVocab     = []string{"1", "1", "a b", "a&b", "a?b", "a#b", "50%", "a+b", "a=b", "é漢", "x\"y", ".", "..", "a.b", "~x"}
-	labelVocab  = []string{"lbl", "lbl", "a b", "a&b=c", "50%", "a+b", "tag#1", "é"}
+	idVocab = []string{"1", "1", "a b", "a&b", "a?b", "a#b", "50%", "a+b", "a=b", "é漢", "x\"y", ".", "..", "a.b", "~x"}
+	// a label is read as the content of a JSON string: the last five are the
+	// raw texts of labels that contain a backslash, a quote, a line feed, a
+	// tab and a leading brace once parsed
+	labelVocab = []string{"lbl", "lbl", "a b", "a&b=c", "50%", "a+b", "tag#1", "é",
+		`a\\b`, `q\"r`, `l\nf`, `t\tb`, `\u007bz`}
 	pageVocab   = []string{"2", "2", "10", "x y", "a&b", "1+1"}
 	filterVocab = []string{
 		`{"f":"x","o":"=","v":"a"}`,
